@@ -356,15 +356,43 @@ def run(ctx):
                     "an instant that still has open snapshots (count > 0) can be dropped from the registry (closure returns %s on the count>0 edge; comparison %s): the GC watermark then passes a live snapshot" % (sorted(map(str, vals)), op)
             ctx.ob("R-C05.6", cl, "open-registrations-are-retained", keep_ok, detail)
             # (b) lowest_retained is the running minimum over retained keys, updated for every retained entry
-            mins = [b for b, t in cl.calls() if A.cname(t) in ("std::cmp::Ord::min", "core::cmp::Ord::min", "std::cmp::min")]
-            maxs = [b for b, t in cl.calls() if A.cname(t).rsplit("::", 1)[-1] in ("max", "saturating_add", "wrapping_add")]
+            bodies_ = [cl] + [f_ for fid_, f_ in sorted(F.fns.items()) if fid_.startswith(cl.id + "::")]
+            mins = [(f_, b) for f_ in bodies_ for b, t in f_.calls() if A.cname(t) in ("std::cmp::Ord::min", "core::cmp::Ord::min", "std::cmp::min")]
+            maxs = [b for f_ in bodies_ for b, t in f_.calls() if A.cname(t).rsplit("::", 1)[-1] in ("max", "saturating_add", "wrapping_add")]
             ok_min = bool(mins) and not maxs
             if mins:
-                args = [cog.of_operand(a) for a in cl.term(mins[0])["args"]]
-                ok_min = ok_min and any(any(x.k == "field" and x.a[1] == "lowest_retained" for x in A.walk(a)) for a in args) and \
-                    any(any(x.k == "param" and x.a[0] == 2 for x in A.walk(a)) for a in args)
+                mf, mb = mins[0]
+                mog = ctx.og(mf)
+                args = [mog.of_operand(a) for a in mf.term(mb)["args"]]
+                if mf is cl:
+                    # `lo.min(k)` on the captured candidate
+                    ok_min = ok_min and any(any(x.k == "field" and x.a[1] == "lowest_retained" for x in A.walk(a)) for a in args) and \
+                        any(any(x.k == "param" and x.a[0] == 2 for x in A.walk(a)) for a in args)
+                else:
+                    # `lowest_retained.map_or(k, |lo| lo.min(k))`: the nested closure's parameter is the old candidate, k is captured;
+                    # the outer closure hands it the captured candidate
+                    outer_ok = any(x.k == "call" and x.a[0].rsplit("::", 1)[-1] in ("map_or", "map", "map_or_else") and any(y.k == "field" and y.a[1] == "lowest_retained" for a_ in x.a[1] for y in A.walk(a_))
+                                   for blk_ in cl.blocks for st_ in blk_["s"] for x in A.walk(cog.of_rvalue(st_["rv"]))) or \
+                        any(A.cname(t_).rsplit("::", 1)[-1] in ("map_or", "map", "map_or_else") and any(y.k == "field" and y.a[1] == "lowest_retained" for a_ in t_["args"] for y in A.walk(cog.of_operand(a_))) for _, t_ in cl.calls())
+                    ok_min = ok_min and outer_ok and any(x.k == "param" for a in args for x in A.walk(a))
             ctx.ob("R-C05.6", cl, "lowest-retained-is-running-minimum", ok_min,
                    "lowest_retained := min(lowest_retained, k) over the retained instants" if ok_min else "the watermark candidate is not the minimum over the retained instants (min calls %d, max-like calls %d)" % (len(mins), len(maxs)))
+            # no in-band sentinel: the candidate's own VALUE must not be what tells "nothing retained yet" from a retained
+            # instant — 0 is a valid instant (a view of the empty database); with `0 => k` the instant-0 registration is
+            # forgotten as soon as a second instant is retained, and the watermark passes a live view
+            sentinel = []
+            for f_ in bodies_:
+                fog = ctx.og(f_)
+                for b, blk in enumerate(f_.blocks):
+                    t = blk["t"]
+                    if t["k"] == "switch" and not blk["cleanup"] and t.get("dty") in ("u64", "usize") and any(v == 0 for v, _ in t["vs"]):
+                        term = fog.of_operand(t["d"])
+                        if any(x.k == "field" and x.a[1] == "lowest_retained" for x in A.walk(term)):
+                            sentinel.append((f_, b))
+            ctx.ob("R-C05.6", cl, "lowest-retained-has-no-in-band-sentinel", not sentinel,
+                   "the candidate is not compared against a magic value" if not sentinel
+                   else "`lowest_retained == 0` is used as \"unset\": a registration at instant 0 (a transaction begun on the empty database) is dropped from the minimum once another instant is retained; the watermark passes the live view and the optimistic oracle prunes the commits it still has to be validated against (lost update)",
+                   sentinel[0][0].loc(sentinel[0][1]) if sentinel else "")
             # every retained entry takes part: whenever the closure can return true, the write to *lowest_retained happened
             wr = [b for b, blk in enumerate(cl.blocks) if not blk["cleanup"] for st in blk["s"]
                   if st["p"]["p"] == ["*"] and A.access_path(cog.of_local(st["p"]["l"])) == ("P1", "lowest_retained")]
@@ -391,3 +419,10 @@ def run(ctx):
             okw = not grows and from_lr
             detail = "watermark := fetch_max(%s)" % A.tstr(val)[:120] + ("" if okw else " — not derived from (or raised above) the lowest retained instant")
         ctx.ob("R-C05.6", gcf, "watermark-from-lowest-retained", okw, detail)
+
+
+    # ---- R-C05.7 a view is frozen: its instant never exceeds the seqno of a write that is still being applied — nothing may raise
+    # the visible counter past an in-flight batch (shared with C06: R-C06.6 — same defect, same seven call sites: a snapshot
+    # opened at that moment later watches the rest of the batch appear: get(last) goes from None to Some, len() grows)
+    from . import C06
+    C06.version_change_rules(ctx, "R-C05.7")
